@@ -58,8 +58,11 @@ DEFAULT_P = {
     "share": 0.4,  # transactions prefer a small pool of callees
 }
 
-INJECT_KINDS = ["doubleCall", "cycle", "unsatPriority", "singleCaller", "readyDepConflict", "sameTransConflict"]
-ACCEPT_KINDS = ["alts_if", "alts_switch", "alts_fsm", "nonexcl_multi"]
+INJECT_KINDS = ["doubleCall", "cycle", "unsatPriority", "singleCaller", "readyDepConflict", "sameTransConflict",
+                "sameTransMixed", "aliasDouble"]
+# the reject kind an injected defect is expected to be classified as (analysis.classify decides)
+EXPECT_KIND = {"sameTransMixed": "sameTransConflict", "aliasDouble": "doubleCall"}
+ACCEPT_KINDS = ["alts_if", "alts_switch", "alts_fsm", "nonexcl_multi", "same_trans_excl", "alias_alts"]
 
 
 def _rint(rng, lohi):
@@ -641,14 +644,103 @@ def inject(design: dict, rng: random.Random, kind: str) -> dict:
     return d
 
 
+def _helper_gen(d: dict, rng, P) -> "Gen":
+    g = Gen(rng, P or {})
+    g.inputs = d["inputs"]
+    g.n_uid = 3000 + len(Desc(d).structs)
+    return g
+
+
+def _fresh_alias(d: dict, rng, target: str, tag: str) -> str:
+    td = next(m for m in d["methods"] if m["ref"] == target)
+    ref = f"y{tag}{len(d['methods'])}"
+    d["methods"].append({"ref": ref, "iw": td["iw"], "ow": td["ow"], "owner": rng.choice([None, 0]), "group": None})
+    blk = d["modules"][rng.randrange(len(d["modules"]))]["block"]
+    blk.insert(rng.randrange(len(blk) + 1), {"k": "provide", "ref": ref, "target": target})
+    return ref
+
+
+def same_trans_family(d: dict, rng: random.Random, P, must_reject: bool):
+    """One transaction `t` reaches both ends of an add_conflict relation from several call sites placed in the
+    alternatives of one If/Switch/FSM.
+      must-accept: every pair (site of a, site of b) sits in different alternatives (the relation is vacuous for t)
+      must-reject: additionally one pair shares an alternative (other pairs stay exclusive: a mixed situation)
+    The relation's end may be nonexclusive and is also called by transactions defined BEFORE and AFTER `t`
+    (they get no implicit conflict with `t`, only the lifted one), in both declaration directions."""
+    g = _helper_gen(d, rng, P)
+    mi = rng.randrange(len(d["modules"]))
+    a = _fresh_leaf(d, rng, "q", iw=rng.choice([0, 2]))
+    b = _fresh_leaf(d, rng, "q", nonexclusive=int(rng.random() < 0.6))
+    if rng.random() < 0.6:
+        _fresh_trans(d, rng, "q", mi)["block"].append(_call(d, b, rng))
+    t = _fresh_trans(d, rng, "q", mi)
+    k = rng.choice([2, 3])
+    blocks: list = [[] for _ in range(k)]
+    blocks[0].append(_call(d, a, rng, enable=rng.random() < 0.3))
+    blocks[1].append(_call(d, b, rng, enable=rng.random() < 0.3))
+    if k == 3:
+        blocks[2].append(_call(d, rng.choice([a, b]), rng))
+    elif rng.random() < 0.5:
+        pass
+    if must_reject:
+        if rng.random() < 0.5:
+            blocks[0].append(_call(d, b, rng))  # (a, b) share alternative 0; the other b stays exclusive with a
+        else:
+            blocks[1].insert(0, _call(d, a, rng))
+    kind = rng.choice(["if", "switch", "fsm"])
+    st = g.wrap_struct(kind, g.uid(), blocks)
+    if kind == "if" and must_reject is False and st["alts"][-1]["cond"] is not None and rng.random() < 0.5:
+        st["alts"][-1]["cond"] = None
+    t["block"].append(st)
+    for _ in range(rng.choice([1, 1, 2])):
+        _fresh_trans(d, rng, "q", mi)["block"].append(_call(d, b, rng, enable=rng.random() < 0.3))
+    if rng.random() < 0.5:
+        _fresh_trans(d, rng, "q", mi)["block"].append(_call(d, a, rng))
+    x, y = (a, b) if rng.random() < 0.6 else (b, a)
+    d["relations"].append({"k": "conflict", "a": x, "b": y, "prio": rng.choice(["U", "L", "R"])})
+
+
+def alias_family(d: dict, rng: random.Random, P, must_reject: bool):
+    """One root reaches one exclusive method body through two different Method objects (a provide()-alias and
+    its target, or two aliases): at non-alternative places (must reject: called twice) or in different
+    alternatives of one structure (must accept)."""
+    g = _helper_gen(d, rng, P)
+    x = _fresh_leaf(d, rng, "z", iw=rng.choice([0, 2]))
+    al = _fresh_alias(d, rng, x, "z")
+    second = _fresh_alias(d, rng, rng.choice([x, al]), "z") if rng.random() < 0.4 else x
+    t = _fresh_trans(d, rng, "z")
+    root = t
+    if rng.random() < 0.3:  # the two calls sit in a method called by the transaction
+        mid = _fresh_leaf(d, rng, "z", nonexclusive=int(rng.random() < 0.5))
+        root = _find_body_stmt(d, mid)
+        t["block"].append(_call(d, mid, rng))
+    c1 = _call(d, al, rng, enable=rng.random() < 0.3)
+    c2 = _call(d, second, rng, enable=rng.random() < 0.3)
+    if must_reject:
+        root["block"].append(c1)
+        if rng.random() < 0.5:
+            root["block"].append(c2)
+        else:
+            root["block"].append({"k": "if", "uid": g.uid(), "alts": [{"cond": _new_input(d, 1, "c"), "block": [c2]}]})
+    else:
+        root["block"].append(g.wrap_struct(rng.choice(["if", "switch", "fsm"]), g.uid(), [[c1], [c2]]))
+    _fresh_trans(d, rng, "z")["block"].append(_call(d, rng.choice([x, al]), rng))
+
+
 def gen_injected(rng: random.Random, P: Optional[dict], kind: str) -> dict:
     for _ in range(10):
         base = gen_valid(rng, P)
         if base["tag"] != "valid":
             continue
-        d = inject(base, rng, kind)
+        if kind in ("sameTransMixed", "aliasDouble"):
+            d = copy.deepcopy(base)
+            (same_trans_family if kind == "sameTransMixed" else alias_family)(d, rng, P, True)
+            d["inject"] = kind
+            d["tag"] = f"inject:{kind}"
+        else:
+            d = inject(base, rng, kind)
         c = classify(Desc(d))
-        if c["must"] == "reject" and kind in c["definite"]:
+        if c["must"] == "reject" and EXPECT_KIND.get(kind, kind) in c["definite"]:
             d["vseed"] = base["vseed"]
             return d
     return d
@@ -666,6 +758,12 @@ def gen_accept_case(rng: random.Random, P: Optional[dict], kind: str) -> dict:
             break
     d = copy.deepcopy(base)
     k = rng.choice([2, 3, 4])
+    if kind in ("same_trans_excl", "alias_alts"):
+        (same_trans_family if kind == "same_trans_excl" else alias_family)(d, rng, P, False)
+        d["tag"] = f"accept:{kind}"
+        d["inject"] = None
+        d["k"] = 2
+        return d
     g = Gen(rng, P or {})
     g.inputs = d["inputs"]
     g.n_uid = 2000
